@@ -196,7 +196,7 @@ theorem presealMelmint_sameSt (env : Env) (s s' : State) (h : presealMelmint env
     obtain ⟨s3, h3, h⟩ := Outcome.bind_eq_ok h
     exact ((((createBuiltins_sameSt s).trans (processSwaps_sameSt _ _ h1)).trans
       (processDeposits_sameSt _ _ _ h2)).trans (processWithdrawals_sameSt _ _ _ h3)).trans
-      (processPegging_sameSt _ _ h)
+      ((createBuiltins_sameSt s3).trans (processPegging_sameSt _ _ h))
 
 theorem applyTip909_sameSt (s s' : State) (h : applyTip909 s = .ok s') : SameSt s s' := by
   unfold applyTip909 at h
